@@ -64,7 +64,7 @@ def gen_case(cseed: int, tier: str) -> dict[str, Any]:
         defines = pool[: w.randrange(1, 4)]
     else:
         feats.discard("defines")
-    prog = progen.gen_program(w, mapping, feats, defines, size=w.choice([6, 10, 14, 18]))
+    prog = progen.gen_program(w, mapping, feats, defines, size=w.choice([6, 10, 14, 18]) if w.random() < 0.96 else w.choice([80, 160, 400, 900, 1500]))
     return {"type": "base", "prog": prog.to_record(), "seed": cseed}
 
 
